@@ -206,17 +206,23 @@ fn diriter_step<const S: usize>(restrict_orders: bool) {
             #[cfg(feature = "lfn")]
             {
                 let has_long = e.long_file_name_as_ucs2_units().is_some();
+                // the run of this entry starts at the LAST slot in front of it that carries the 0x40 flag; long-name slots
+                // in front of that one are orphans (ignored, but inside the slot range so that a remove cleans them up)
+                let mut run = k;
+                let mut j = start;
+                while j < k { if dir[j * 32] & 0x40 != 0 { run = j; } j += 1; }
                 // (a well-formed run whose units are all padding/terminators decodes to an empty name: also a fallback)
-                if !run_well_formed(&dir, start, k) { assert!(!has_long); }
+                if !run_well_formed(&dir, run, k) { assert!(!has_long); }
                 else {
                     let len = e.lfn_utf16.len();
-                    assert!(len <= (k - start) * 13);
+                    assert!(len <= (k - run) * 13);
                     if len > 0 {
                         // first unit of the name = first unit of the slot with order 1, i.e. slot k-1
                         let u0 = (dir[(k - 1) * 32 + 1] as u16) | ((dir[(k - 1) * 32 + 2] as u16) << 8);
                         assert!(e.lfn_utf16.as_ucs2_units()[0] == u0);
                     }
-                    if S <= 2 { kani::cover!(len == 13 && k - start == 1); }
+                    if S <= 2 { kani::cover!(len == 13 && k - run == 1); }
+                    if S <= 1 { kani::cover!(run > start); }                              // orphan slot in front of the run
                     if S <= 2 { kani::cover!(S > 0 || (start > 0 && slot_class(&dir, start - 1) == 1)); } // run directly behind a deleted slot
                 }
                 if S <= 2 { kani::cover!(!has_long && start < k); }                    // broken run: fallback
